@@ -56,8 +56,8 @@ theorem bucketStores_sound (g : Grammar) (maxchar : Nat) : ∀ (prev : Str) (res
 
 theorem stores_of_storesB {S : List Str} {d : D} (h : storesB S d = true) : Stores S d := by
   simp only [storesB, Bool.and_eq_true, decide_eq_true_eq, List.all_eq_true] at h
-  obtain ⟨⟨⟨⟨h1, h2⟩, h3⟩, h4⟩, h5⟩ := h
-  refine ⟨h1, h2, h3, h4, ?_⟩
+  obtain ⟨⟨⟨⟨⟨h1, h2⟩, hb⟩, h3⟩, h4⟩, h5⟩ := h
+  refine ⟨h1, h2, hb, h3, h4, ?_⟩
   intro k c σ hc hσ
   have hmem : (c, σ) ∈ (chunks d.bucketsize S).zip d.streams := by
     rw [List.mem_iff_getElem?]
